@@ -130,6 +130,42 @@ def rule_ctor(ctx, F):
                     ctx.ok("W3", "ts_subtree_new_leaf:heap-init", "the heap leaf literal sets %d header fields explicitly" % len(explicit))
 
 
+INLINE_GUARDS = [   # (guard operand in ts_subtree_can_inline, inline field that stores it)
+    ("padding.bytes", "padding_bytes"), ("padding.extent.row", "padding_rows"), ("padding.extent.column", "padding_columns"),
+    ("size.bytes", "size_bytes"), ("lookahead_bytes", "lookahead_bytes"),
+]
+
+
+def rule_inline_widths(ctx, F):
+    """A leaf is stored inline only if each quantity fits the bit-field that will hold it."""
+    fn = ctx.need_fn(F, "ts_subtree_can_inline", "W4")
+    rec = F.records.get("SubtreeInlineData")
+    if not fn or not rec:
+        ctx.bad("W4", "inline-widths:anchors", "ts_subtree_can_inline / SubtreeInlineData not found")
+        return
+    width = {f["name"]: f.get("bits") or f.get("intbits") for f in rec["fields"]}
+    rets = [strip(e["e"]) for pt, e in fn.points() if e.get("k") == "ret"]
+    cj = conjuncts(rets[0]) if rets else []
+    for operand, field in INLINE_GUARDS:
+        w = width.get(field)
+        bound = None
+        for c in cj:
+            if c.get("k") == "bin" and c["op"] in ("<", "<=") and show(strip(c["l"])) == operand and strip(c["r"]).get("k") == "int":
+                bound = strip(c["r"])["v"] + (1 if c["op"] == "<=" else 0)
+        key = "can_inline:%s-fits-%s" % (operand, field)
+        if w is None or bound is None:
+            ctx.bad("W4", key, "no `%s < K` guard in ts_subtree_can_inline or no field `%s` in SubtreeInlineData" % (operand, field))
+        elif bound <= 2 ** w:
+            ctx.ok("W4", key, "`%s < %d` fits the %d-bit field %s" % (operand, bound, w, field), sample={"guard": "%s < %d" % (operand, bound), "field": field, "bits": w})
+        else:
+            ctx.bad("W4", key, "ts_subtree_can_inline admits %s up to %d but the inline field `%s` has only %d bits: the value is truncated (row/column or look-ahead of an inline leaf becomes wrong)" % (
+                operand, bound - 1, field, w), {"field": field, "bits": w, "bound": bound})
+    if any(c.get("k") == "bin" and c["op"] == "==" and show(strip(c["l"])) == "size.extent.row" and strip(c["r"]).get("v") == 0 for c in cj):
+        ctx.ok("W4", "can_inline:size-single-row", "inline leaves span no line break (there is no field for size rows)")
+    else:
+        ctx.bad("W4", "can_inline:size-single-row", "ts_subtree_can_inline no longer requires size.extent.row == 0 although the inline form cannot store it")
+
+
 def rule_p1(ctx, F):
     fn = ctx.need_fn(F, "ts_subtree_compress", "P1")
     if not fn:
@@ -226,6 +262,7 @@ def run(ctx):
         ctx.analysed["c_functions_" + cfg] = len(F.fn_list)
         rule_w(ctx, F)
         rule_ctor(ctx, F)
+        rule_inline_widths(ctx, F)
         rule_p1(ctx, F)
         rule_p2(ctx, F)
         import C06
